@@ -459,6 +459,26 @@ def r18_5(run):
                        '"unix:/run/tor/socks WorldWritable" the endpoint points at a path that does not exist instead of the configured listener' % kind,
                path=p_.describe(8))
     run.floor('R18.5', 'constructor paths for a line with option words', kk, 2)
+    # a unix path that contains a blank is quoted: the quote is looked at before anything is cut at a blank - on the way to the
+    # unix constructor no whitespace cut (split()[0]) precedes the first look at '"'
+    def quote_look(n):
+        return n.ast is not None and any(isinstance(x, ast.Constant) and x.value == '"' for x in ast.walk(n.ast))
+    uctor = [n for n in ctor if any(isinstance(a, ast.Call) and dotted(a.func) == 'UNIXClientEndpoint' for a in node_asts(n))]
+    for p_ in ge.paths(follow_exc=False):
+        nodes = [n for n, _ in p_.steps]
+        hit = [n for n in nodes if n in uctor]
+        if not hit:
+            continue
+        upto = nodes[:nodes.index(hit[0])]
+        looks = [i for i, n in enumerate(upto) if quote_look(n)]
+        ws_cut = [i for i, n in enumerate(upto) if n.kind == 'stmt' and isinstance(n.ast, ast.Assign) and any(
+            isinstance(x, ast.Subscript) and isinstance(x.value, ast.Call) and callee_attr(x.value) == 'split' and not x.value.args and const(x.slice) == 0 for x in ast.walk(n.ast.value))]
+        early = [i for i in ws_cut if not looks or i < looks[0]]
+        if early and (looks or True):
+            run.ob('R18.5', el, upto[early[0]].ast, 'a quoted unix path is recognised before the line is cut at a blank', not looks or False, slot='unix-quote-before-cut',
+                   message='_endpoint_from_socksport_line cuts the line at its first blank (%s) before it looks for the quotes of a unix path: unix:"/run/tor browser/socks" '
+                           'becomes the path "/run/tor' % src(upto[early[0]].ast)[:50], path=p_.describe(8))
+            break
 
 
 def r18_6(run):
@@ -521,6 +541,32 @@ def r18_8(run):
     borrow(run, c12.r12_1, 'R18.8')
 
 
+def r18_9(run):
+    """every existing SOCKSPort entry is re-listed exactly as Tor reported it, options included - also when Tor reported it as a
+    *default* (config/defaults): the value of a defaults line is everything after the option name.  Taking a word of the line
+    (fields[1] of an unbounded split) cuts "9150 IPv6Traffic PreferIPv6" down to "9150", and the SETCONF that adds a port then
+    re-lists the listener without its options"""
+    tc = run.idx.cls('TorConfig', 'torconfig')
+    gd = run.idx.find_method(tc, '_get_defaults')
+    if gd is None:
+        raise AnchorVanished('TorConfig._get_defaults')
+    lines = [n for n in walk_unit(gd) if isinstance(n, ast.For)]
+    k = 0
+    for lp in lines:
+        if not isinstance(lp.target, ast.Name):
+            continue
+        ln = lp.target.id
+        for n in ast.walk(lp):
+            if not isinstance(n, ast.Call) or callee_attr(n) not in ('split', 'partition', 'rsplit') or dotted(receiver(n)) != ln:
+                continue
+            k += 1
+            bounded = callee_attr(n) == 'partition' or (callee_attr(n) == 'split' and len(n.args) == 2 and const(n.args[1]) == 1)
+            run.ob('R18.9', gd, n, 'a defaults line is cut once, after the option name (the value keeps its blanks)', bounded, slot='defaults-value-whole',
+                   message='_get_defaults cuts a config/defaults line with %s: a default such as "9150 IPv6Traffic PreferIPv6" loses everything after its first word, and a '
+                           'later SETCONF re-lists the existing listener without its options' % src(n)[:40])
+    run.floor('R18.9', 'cuts of a defaults line', k, 1)
+
+
 RULES = [
     ('R18.8', 'the re-issued lines are quoted correctly on the wire (R12.1 borrowed)', r18_8),
     ('R18.7', 'who-may-choose: Tor._socks_endpoint is assigned only from _create_socks_endpoint', r18_7),
@@ -529,6 +575,7 @@ RULES = [
     ('R18.1b', 'path completeness: the re-listed list is a single copy of the pre-strip list of existing ports', r18_1b),
     ('R18.2', 'one set_conf outside loops', r18_2_3),
     ('R18.3', 'set_conf only with socks_endpoint is None; existing ports tried first, matched by equality', lambda run: None),
+    ('R18.9', 'a config/defaults line is split once: the default value keeps its option words', r18_9),
     ('R18.4', 'fallback loop shape: [9050, 9150] in order, return on success, only ConnectError moves on, last error raised', r18_4),
     ('R18.5', 'sibling agreement: socks_endpoint and create_socks_endpoint match a port by token equality; added port is saved', r18_5),
 ]
